@@ -15,3 +15,23 @@ Theorem C10_refuted_pre_fix_sectionwise_get :
     coll_get_sectionwise fm_append s k <> snap_get fm_append (mk_snapshot s) k.
 Proof. exact C10_refuted_pre_fix. Qed.
 Print Assumptions C10_refuted_pre_fix_sectionwise_get.
+
+(* the three read paths in ONE statement (ReadPaths): on every reachable state of an open
+   collection, what an iterator over a fresh snapshot enumerates - any bounds, any naive-seek
+   budget, any program of Next / SeekTo / Current calls - is a strictly ascending list holding
+   exactly the in-range keys for which Snapshot.Get and Collection.Get return a value, each with
+   that value (operator never returning nil: with a nil-returning one this is finding F17b) *)
+From Coq Require Import List.
+From Moss Require Import SegmentFacts Iterator IterBridge IterBridgeFacts ReadPaths.
+Theorem C10_three_read_paths_agree :
+  forall (fm : bytes -> value -> bytes -> value) (c : cfg) (l0 : llsnap) (ls : list label) (s : cstate)
+         (start end_ : option bytes) (tries : nat),
+    nonil fm -> run fm c (init l0) ls = Some s -> closed s = false ->
+    let cfg := snap_cfg fm (cur_snapshot s) start end_ tries in
+    (forall prog, run_model fm cfg prog = run_spec fm cfg prog) /\
+    asc (map fst (live_range fm cfg)) /\
+    (forall k v, In (k, v) (live_range fm cfg) <->
+       in_range start end_ k = true /\ v <> None /\
+       v = snap_get fm (cur_snapshot s) k /\ v = coll_get fm s k).
+Proof. exact three_read_paths_agree. Qed.
+Print Assumptions C10_three_read_paths_agree.
